@@ -44,7 +44,11 @@ pub enum RawNum {
     Dec(u16, u8),
     Frac(u8, u8),
     Mixed(u8, u8, u8),
+    /// very large integer literal (parsed as a float)
+    Big(u8),
 }
+
+pub const BIG_INTS: &[&str] = &["20000000000000000000", "123456789012345678901234567890", "4294967296", "9007199254740993"];
 
 #[derive(Debug, Clone, Serialize, Deserialize)]
 pub enum RawVal {
@@ -136,6 +140,7 @@ fn raw_num() -> impl Strategy<Value = RawNum> + Clone {
         2 => (0u16..300, 0u8..DEC_FRACS.len() as u8).prop_map(|(a, b)| RawNum::Dec(a, b)),
         2 => (0u8..20, 1u8..17).prop_map(|(a, b)| RawNum::Frac(a, b)),
         1 => (1u8..20, 0u8..16, 1u8..17).prop_map(|(w, a, b)| RawNum::Mixed(w, a, b)),
+        1 => (0u8..4).prop_map(RawNum::Big),
     ]
 }
 
@@ -162,7 +167,7 @@ fn raw_comp() -> impl Strategy<Value = RawComp> {
             proptest::option::weighted(0.12, (0u8..4, 0u8..4)),
             proptest::option::weighted(0.15, 0u8..NAME_WORDS.len() as u8),
             proptest::option::weighted(0.6, raw_qty()),
-            proptest::option::weighted(0.2, proptest::collection::vec(0u8..TEXT_WORDS.len() as u8, 1..=3)),
+            proptest::option::weighted(0.2, proptest::collection::vec(0u8..TEXT_WORDS.len() as u8, 0..=3)),
             any::<bool>(),
         ),
     )
@@ -254,6 +259,7 @@ fn num_of(r: &RawNum) -> NumM {
         RawNum::Dec(a, b) => NumM::Dec(format!("{}.{}", a, DEC_FRACS[*b as usize % DEC_FRACS.len()])),
         RawNum::Frac(a, b) => NumM::Frac(*a as u32, (*b).max(1) as u32),
         RawNum::Mixed(w, a, b) => NumM::Mixed(*w as u32, *a as u32, (*b).max(1) as u32),
+        RawNum::Big(i) => NumM::Dec(BIG_INTS[*i as usize % BIG_INTS.len()].to_string()),
     }
 }
 
